@@ -25,10 +25,12 @@ FLUSH_RAW = 0    # F20: FileProxy.flush prints the pending text as a str (markup
 EMPTY_IGNORED = 0      # F27: an omitted SGR parameter is dropped: "\x1b[m" does not reset (ECMA-48: omitted = 0)
 RESET_DROPS_LINK = 0   # F28: SGR 0 also drops the OSC 8 hyperlink
 OFF_SINGLE = 0         # F29: 24 / 25 leave the double underline / rapid blink on
-FLAGS = "".join(str(int(bool(x))) for x in (INT_RAISES, FLUSH_RAW, EMPTY_IGNORED, RESET_DROPS_LINK, OFF_SINGLE))
-# development aid only (running against another checkout, VERIF_REPO=<worktree>): VERIF_C19_FLAGS=00000 overrides the constants above
+CR_ERASES = 1          # F31: a line ending in "\r" (CR LF output) decodes to nothing
+SGR_LAZY = 1           # F32: any "ESC [" is read as SGR up to the next "m": ESC[?25l / ESC[2K / ESC[1A swallow the text after them
+FLAGS = "".join(str(int(bool(x))) for x in (INT_RAISES, FLUSH_RAW, EMPTY_IGNORED, RESET_DROPS_LINK, OFF_SINGLE, CR_ERASES, SGR_LAZY))
+# development aid only (running against another checkout, VERIF_REPO=<worktree>): VERIF_C19_FLAGS=0000000 overrides the constants above
 FLAGS = os.environ.get("VERIF_C19_FLAGS") or FLAGS
-assert len(FLAGS) == 5 and set(FLAGS) <= {"0", "1"}
+assert len(FLAGS) == 7 and set(FLAGS) <= {"0", "1"}
 
 ESC = "\x1b"
 LINE_SEPS = {10, 11, 12, 13, 28, 29, 30, 133, 8232, 8233}  # isLineSep in Model/Ansi.lean
@@ -113,7 +115,7 @@ def section_tokenizer(ctx, tick):
                 ans = enc_tokens(list(tok(s)))
             except BaseException as e:
                 ans = "err:Other:" + type(e).__name__
-            ctx.case("ansi_tokenize", [enc_str(s)], ans, shape=f"len{min(len(s), 8)}", sample=f"_ansi_tokenize({s!r})")
+            ctx.case("ansi_tokenize", [FLAGS, enc_str(s)], ans, shape=f"len{min(len(s), 8)}", sample=f"_ansi_tokenize({s!r})")
         if re_csi is not None:
             try:
                 ans = enc_str(re_csi.sub("", s))
@@ -253,9 +255,11 @@ def foreign_stream(rng, newline=False):
             else:
                 parts.append(ESC + "]8;" + rng.choice(["", "id=9"]) + ";" + rng.choice(["http://e.x", "ftp://a/b;c"]) + ESC + "\\")
             linked = not linked
+        elif r < 0.72:
+            parts.append(rng.choice(CSI_OTHER))
         else:
-            parts.append(rng.choice(["a", "bc", "日本", " ", "x=1"]))
-    return "".join(parts)
+            parts.append(rng.choice(["a", "bc", "日本", " ", "x=1", "items", "m"]))
+    return "".join(parts) + ("\r" if rng.random() < 0.1 else "")
 
 
 def classify_meaning_diff(stream, got_rows, want_rows):
@@ -268,7 +272,8 @@ def classify_meaning_diff(stream, got_rows, want_rows):
             rows.pop()
         return rows
 
-    for dev, slug in (("empty", "sgr-empty-param-ignored"), ("reset-link", "sgr-reset-drops-link"), ("off-single", "sgr-off-keeps-double")):
+    for dev, slug in (("cr", "decode-trailing-cr-erases-line"), ("csi-lazy", "csi-swallows-text"),
+                      ("empty", "sgr-empty-param-ignored"), ("reset-link", "sgr-reset-drops-link"), ("off-single", "sgr-off-keeps-double")):
         try:
             alt, _ = L.stream_meaning(stream, deviation=dev)
         except Exception:  # noqa: BLE001
@@ -347,7 +352,9 @@ def section_decoder(ctx, tick):
         meaning_check(foreign_stream(rng))
     for s0 in [ESC + "[1mbold" + ESC + "[mplain", ESC + "[1mb" + ESC + "[;3mi", ESC + "[1;m" + "x", ESC + "[;mx" + ESC + "[3;;4my",
                ESC + "]8;;http://u" + ESC + "\\" + ESC + "[1mA" + ESC + "[0mB" + ESC + "]8;;" + ESC + "\\C",
-               ESC + "[21md" + ESC + "[24mn", ESC + "[6mr" + ESC + "[25ms", ESC + "[4;21mu" + ESC + "[24mn"]:
+               ESC + "[21md" + ESC + "[24mn", ESC + "[6mr" + ESC + "[25ms", ESC + "[4;21mu" + ESC + "[24mn",
+               "foo\r", "10%\r\r", ESC + "[?25lloading items", ESC + "[2Kcleared line, more text", "a" + ESC + "[1Aup, then m rest",
+               sgr(1, 31) + "red" + ESC + "[2Kx" + sgr(0) + "plain", ESC + "[Hhome", ESC + "[10;20Hmoved", ESC + "[>4;2mxterm"]:
         meaning_check(s0)
     # int() limits
     lim = sys.get_int_max_str_digits() if hasattr(sys, "get_int_max_str_digits") else 0
@@ -746,11 +753,20 @@ def rand_line(rng, tricky):
             # foreign ANSI: omitted parameters, the off codes for the double variants, a reset inside a hyperlink
             parts.append(rng.choice([ESC + "[m", sgr(1) + "b" + ESC + "[;3m" + "i", sgr(21) + "uu" + sgr(24) + "n", sgr(6) + "r" + sgr(25) + "s",
                                      ESC + "]8;;http://f" + ESC + "\\" + sgr(1) + "A" + sgr(0) + "B" + ESC + "]8;;" + ESC + "\\", sgr(4, 21, 24) + "n"]))
+        elif r < 0.76:
+            # what other programs write around their text: cursor / erase sequences (dropped by the proxy: a line-oriented
+            # console cannot honour them) followed by text that has an "m" further on
+            parts.append(rng.choice(CSI_OTHER) + rng.choice(["loading items", "moved m", "x", "1 item", "", "home"]))
         elif r < 0.9 or not tricky:
             parts.append(rng.choice(["[bold]b[/bold]", "[/foo]", "[red]", ":smile:", "12", "3.5", '"s"', "True", "None", "http://u.v", "[", "]", "\\[", "<a b=1>", "(1, 2)", "0x1f"]))
         else:
             parts.append(rng.choice(["\r", "\t", "\x08", ESC, ESC + "[", ESC + "[1", ESC + "[²m", ESC + "]8;;x", "\x0b", ESC + "[2K", "\x85"]))
-    return "".join(parts)
+    # CR LF terminated output: the line ends in a carriage return
+    return "".join(parts) + ("\r" if rng.random() < 0.2 else "")
+
+
+CSI_OTHER = [ESC + "[?25l", ESC + "[?25h", ESC + "[2K", ESC + "[K", ESC + "[1A", ESC + "[H", ESC + "[10;20H", ESC + "[2J", ESC + "[s", ESC + "[u",
+             ESC + "[>4;2m", ESC + "[1 q", ESC + "M", ESC + "[?1049h"]
 
 
 def escape_spans(s):
@@ -968,6 +984,8 @@ def safe_line(rng):
             parts.append(sgr(0))
         else:
             parts.append(ESC + "]8;id=3;http://e.x/p" + ESC + "\\" + "lnk" + ESC + "]8;;" + ESC + "\\")
+        if rng.random() < 0.12:
+            parts.append(rng.choice(CSI_OTHER[:10]) + rng.choice(["loading items", "m", "x"]))
     return "".join(parts)
 
 
@@ -1010,7 +1028,8 @@ def section_live(ctx, tick):
                 hist.append((w, ("w", l[:cut])))
                 if rng.random() < 0.3 and not any(a <= cut < b for a, b in escape_spans(l)):
                     hist.append((w, ("f", False)))
-                hist.append((w, ("w", l[cut:] + rng.choice(["\n", "\n", "\n\n", ""]))))
+                # (CR LF line ends now and then; a CR that is not at the end of a line is outside the statement)
+                hist.append((w, ("w", l[cut:] + rng.choice(["\n", "\n", "\r\n", "\n\n", ""]))))
             else:
                 hist.append((w, ("f", False)))
         r = rng.random()
@@ -1211,7 +1230,9 @@ MANIFEST = {
     "Foreign ANSI: decode_sgr_means_ecma — the repaired decoder's loop over SGR parameters IS the ECMA-48 / ISO 8613-6 interpreter ecmaFold (written "
     "from the standard) on attributes, colours and hyperlink, for every parameter list without 26 and every start style; "
     "sgr_table_agrees_with_ecma48 (decide +kernel on the translated table each run); sgr_omitted_parameters_are_zero; witnesses old_empty_param_ignored "
-    "(F27), old_reset_drops_link (F28), old_off_keeps_double (F29).  legacy_windows: decode_encode_legacy (round trip with the link dropped).  "
+    "(F27), old_reset_drops_link (F28), old_off_keeps_double (F29).  Foreign output: crlf_lines_complete (CR LF terminated lines come out complete) "
+    "and other_csi_dropped (a CSI sequence that is not SGR — cursor show / hide, erase, movement, private — is dropped and the text around it comes out "
+    "complete); witnesses old_trailing_cr_erases_line (F31), old_csi_swallows_text (F32).  legacy_windows: decode_encode_legacy (round trip with the link dropped).  "
     "Tie: ~150k (quick) / ~1.5M (thorough) generated cases compared model-vs-rich for _ansi_tokenize, re_csi removal, decode_line / decode "
     "(final decoder style included), Style.render / _render_buffer, and FileProxy histories (what the proxy asks console.print to print, per call), "
     "plus direct evaluation on rich's own output with oracles independent of the model: harness/term.py tokenizer + an ECMA-48 reading of SGR "
@@ -1226,7 +1247,9 @@ MANIFEST = {
     "canonical (a WINDOWS-type colour reads back as STANDARD: compared by terminal meaning in the harness, outside the theorem); AnsiDecoder.decode "
     "additionally splits at VT FF FS GS RS NEL LS PS (str.splitlines), so a printed text containing those decodes into more lines than were printed "
     "(observed, outside the statement's texts).  Deviations of the decoder from ECMA-48 on foreign streams are findings with flags, witnesses and diffs: omitted parameter "
-    "ignored (F27), SGR 0 drops the hyperlink (F28), 24 / 25 keep the double variants (F29); rows 24 / 25 of the model's table come from the flag, not from "
+    "ignored (F27), SGR 0 drops the hyperlink (F28), 24 / 25 keep the double variants (F29), a line ending in CR decodes to nothing (F31), any `ESC [` "
+    "is read as SGR up to the next m so other CSI sequences swallow the text after them (F32); a CR that is not at the end of a line keeps what follows the "
+    "last one (the code's stated reading; a cell-exact overwrite is outside the statement and those lines stay in the model-only stream); rows 24 / 25 of the model's table come from the flag, not from "
     "the translated table (tied by the per-code correspondence); 26 (ECMA-48: proportional spacing; rich: not blink2) and unknown colour-space selectors "
     "after 38 / 48 are outside the theorem.  OUTSIDE THE STATEMENT, observed only (ctx.note, no check, no slug): Live.stop / Progress.stop do not flush the "
     "proxies, so a partial line pending at stop() — which is neither a line written nor something a flush was asked to emit, and which is not lost "
